@@ -66,6 +66,7 @@ type act struct {
 	returns  []retRec
 	sites    map[ssa.CallInstruction]callSite
 	loops    map[*ssa.BasicBlock]*loopInfo
+	curBlock *ssa.BasicBlock // block being executed (nil outside the body walk)
 	outs     map[*ssa.BasicBlock]*blockOut
 	order    []*ssa.BasicBlock
 	rpoIdx   map[*ssa.BasicBlock]int
@@ -364,7 +365,23 @@ func (a *act) obligationX(kind, label string, pos token.Pos, guard, cond Term, a
 		c.obligations = append(c.obligations, ob)
 		return
 	}
-	if kf := openFinding("", name); kf != nil && kf.Region != "" && c.topAct != nil {
+	if kf := openFinding("", name); kf != nil && len(kf.Via) > 0 && c.topAct != nil {
+		// open known finding identified by call sites: known to fail on the paths through one of these calls (of the
+		// same iteration when the obligation is inside a loop); every other path must still be proved
+		var through []Term
+		ol := c.topAct.innermostLoop(c.topAct.curBlock)
+		for _, site := range kf.Via {
+			for _, vr := range c.viaReach[site] {
+				if c.topAct.curBlock == nil || c.topAct.innermostLoop(vr.block) == ol {
+					through = append(through, vr.reach)
+				}
+			}
+		}
+		un := &Obligation{Name: name + "?unrestricted", Kind: kind, Pos: a.e.pos(pos), Formula: f, Fn: top.name, Inputs: c.inputs, kfUnrestricted: true, kfName: name}
+		c.log.addOblig(un)
+		c.obligations = append(c.obligations, un)
+		f = implies(and(guard, not(or(through...))), cond)
+	} else if kf != nil && kf.Region != "" && c.topAct != nil {
 		// open known finding: the obligation is split into the known-failing region (reported as KNOWN-FINDING)
 		// and the rest, which must still be proved
 		if rx, err := parseExpr(kf.Region); err == nil {
@@ -847,6 +864,7 @@ func (a *act) execBlock(b *ssa.BasicBlock, st *State, reach Term, disc *loopInfo
 	e := a.e
 	out := &blockOut{st: st, reach: reach}
 	a.outs[b] = out
+	a.curBlock = b
 	for _, in := range b.Instrs {
 		switch x := in.(type) {
 		case *ssa.If:
@@ -943,4 +961,23 @@ func (e *Engine) panicLabel(x *ssa.Panic) string {
 		}
 	}
 	return "explicit"
+}
+
+type viaRec struct {
+	block *ssa.BasicBlock
+	reach Term
+}
+
+// innermostLoop: the smallest loop whose body contains b (nil when b is in no loop).
+func (a *act) innermostLoop(b *ssa.BasicBlock) *loopInfo {
+	var inner *loopInfo
+	if b == nil {
+		return nil
+	}
+	for _, li := range a.loops {
+		if li.blocks[b] && (inner == nil || len(li.blocks) < len(inner.blocks)) {
+			inner = li
+		}
+	}
+	return inner
 }
